@@ -786,6 +786,26 @@ func (ev *symEval) doCall(fr *symFrame, st *symState, x *ssa.Call) ([]outcome, b
 		fr.env[x] = SV{K: "slice", Desc: name, Len: &l, Known: true}
 		return nil, false
 	}
+	if id == "errors.Is" && len(args) == 2 {
+		// decided where the arguments allow: nil is nothing; an error is itself; the distinct errors a scenario
+		// hands out ("err...") wrap no sentinel; anything else stays undetermined (the evaluator forks)
+		a, b := args[0], args[1]
+		sentinel := func(d string) bool { return strings.HasPrefix(d, "global:") }
+		switch {
+		case a.K == "ref" && a.Known && a.Nil:
+			st.trace = append(st.trace, ev.callEvent(fr, "call", x))
+			fr.env[x] = symBool(false)
+			return nil, false
+		case a.Desc == b.Desc:
+			st.trace = append(st.trace, ev.callEvent(fr, "call", x))
+			fr.env[x] = symBool(true)
+			return nil, false
+		case (strings.HasPrefix(a.Desc, "err") || sentinel(a.Desc)) && sentinel(b.Desc):
+			st.trace = append(st.trace, ev.callEvent(fr, "call", x))
+			fr.env[x] = symBool(false)
+			return nil, false
+		}
+	}
 	e := ev.callEvent(fr, "call", x)
 	st.trace = append(st.trace, e)
 	// result
